@@ -53,7 +53,11 @@ def shrink(execute, reducers, case, signature, budget=300):
     improved = True
     while improved and used < budget:
         improved = False
-        for cand in reducers(best):
+        try:
+            cands = list(reducers(best))
+        except Exception:
+            break
+        for cand in cands:
             used += 1
             if fails(cand):
                 best = cand
